@@ -56,7 +56,7 @@ def plan(tier):
     n = 2000 if tier == "quick" else 80000
     return [(c, n) for c in par.FAULT_CLASSES] + \
         [("dense", 4 * n), ("fanout", n), ("skinny", 2 * n),
-         ("long", n // 25), ("bigtree", n // 4)]
+         ("long", n // 25), ("bigtree", n // 4), ("shattered", n), ("corridor", 3 * n)]
 
 
 def gen_long(rng):
@@ -118,14 +118,94 @@ def gen_skinny(rng, side):
     return dict(w=w, h=h, dead_chips=[], dead_links=sorted(dead))
 
 
+def gen_corridor(rng):
+    """A net running straight along one axis whose direct path is broken in
+    several places (often in the forward direction only), while many chips
+    of the path are walled off sideways: every repair has to leave the path
+    through one of a few gates and comes back over stretches that earlier
+    repairs re-attached.  -> (machine, path chips)"""
+    w, h = rng.randint(8, 18), rng.randint(8, 18)
+    d = rng.randrange(6)
+    dx, dy = par.VEC[d]
+    n = rng.randint(5, min(w, h) - 1)
+    sx, sy = rng.randrange(w), rng.randrange(h)
+    path = [((sx + i * dx) % w, (sy + i * dy) % h) for i in range(n + 1)]
+    dead = set()
+
+    def kill(x, y, l, both):
+        dead.add((x, y, l))
+        if both:
+            nx, ny = par.neighbour(w, h, x, y, l)
+            dead.add((nx, ny, (l + 3) % 6))
+    # a contiguous stretch of the path is walled off sideways - against
+    # entering, against leaving, or both - so that it can only be reached
+    # along the axis; breaks before, inside and at the end of it
+    a = rng.randint(0, max(0, n - 4))
+    b = min(n, a + rng.randint(3, 8))
+    mode = rng.choice(["in", "in", "out", "both"])
+    for x, y in path[a + 1:b]:
+        for l in range(6):
+            if l in (d, (d + 3) % 6) or rng.random() < .1:
+                continue
+            nx, ny = par.neighbour(w, h, x, y, l)
+            if mode in ("out", "both"):
+                dead.add((x, y, l))
+            if mode in ("in", "both"):
+                dead.add((nx, ny, (l + 3) % 6))
+    breaks = {a, rng.randint(a, b - 1), b - 1}
+    for _ in range(rng.randint(0, 2)):
+        breaks.add(rng.randrange(n))
+    for i in breaks:
+        if i < n:
+            kill(path[i][0], path[i][1], d, rng.random() < .25)
+    for _ in range(rng.choice([0, 0, rng.randint(0, w * h // 6)])):
+        kill(rng.randrange(w), rng.randrange(h), rng.randrange(6),
+             rng.random() < .7)
+    if rng.random() < .3:
+        dead |= set(par.wrap_links(w, h))
+    return dict(w=w, h=h, dead_chips=[], dead_links=sorted(dead)), path
+
+
 def gen(cls, idx, rng, tier):
     side = 12 if tier == "quick" else 16
+    if cls == "corridor":
+        m, path = gen_corridor(rng)
+        place = [("src", path[0])]
+        for i in range(rng.randint(1, 4)):
+            place.append(("t%d" % i, path[-1] if i == 0 else
+                          rng.choice(path[2:])))
+        chips = par.live_chips(m)
+        for i in range(rng.randint(0, 3)):
+            place.append(("o%d" % i, rng.choice(chips)))
+        allocs = {v: (1 + i % 16, 2 + i % 16)
+                  for i, (v, _) in enumerate(place)}
+        nets = [("src", [v for v, _ in place[1:]], 1.0)]
+        if rng.random() < .3:
+            nets.append((place[-1][0], ["src", place[1][0]], 1.0))
+        return dict(machine=m, place=place, allocs=allocs, endpoints=[],
+                    nets=nets, radius=rng.choice([20, 20, 0, 1, 3]),
+                    tie=rng.randrange(1 << 30))
     if cls == "fanout":
         m = par.gen_faults(rng, rng.choice(["sparse", "dense", "none"]), side)
     elif cls == "skinny":
         m = gen_skinny(rng, side)
     elif cls == "long":
         m = gen_long(rng)
+    elif cls == "shattered":
+        # a third to a half of all links broken (mostly in both directions)
+        # on machines large enough for branches that meet several breaks in
+        # a row: repairs of one tree cross each other and re-attach parts
+        # that were themselves re-attached before
+        w, h = rng.randint(8, 20), rng.randint(8, 20)
+        frac = rng.uniform(0.28, 0.5)
+        dead = set(par.wrap_links(w, h)) if rng.random() < .3 else set()
+        for _ in range(int(w * h * 6 * frac / 2)):
+            x, y, l = rng.randrange(w), rng.randrange(h), rng.randrange(6)
+            dead.add((x, y, l))
+            if rng.random() < .9:
+                nx, ny = par.neighbour(w, h, x, y, l)
+                dead.add((nx, ny, (l + 3) % 6))
+        m = dict(w=w, h=h, dead_chips=[], dead_links=sorted(dead))
     elif cls == "bigtree":
         # trees of hundreds of nodes grown with a small search radius: the
         # router changes its neighbour-search strategy on the way, and late
@@ -165,6 +245,8 @@ def gen(cls, idx, rng, tier):
             fan = rng.randint(4, 20)
         if cls == "bigtree":
             fan = rng.randint(25, 60)
+        if cls == "shattered":
+            fan = rng.randint(6, 30)
         sinks = [rng.choice(place)[0] for _ in range(fan)]
         if rng.random() < .3:
             sinks.append(sinks[0])          # duplicated sink
